@@ -151,7 +151,8 @@ def main():
         if c.trusted or (args and not any(a in key for a in args)):
             continue
         mod, qual = key.split(':')
-        rel = os.path.join(*mod.split('.')) + '.py'
+        from pyvc import extract
+        rel = os.path.relpath(extract.module_path(mod), REPO)
         src = open(os.path.join(REPO, rel)).read()
         tree = ast.parse(src)
         try:
